@@ -62,7 +62,27 @@ def gen_cases(rng, tier):
         cases.append({'m': m, 'orient': rng.choice(['asis', 'rot', 'params']), 'rseed': rng.randrange(10**6), 'sites8': [list(p) for p in pts],
                       'labels': labels, 'mode': mode, 'radius': radius, 'frac': rng.choice([1.0, 1.0, 0.8, 0.5]), 'pos': pos,
                       'site_scale': rng.choice([1.0, 1.0, 1.0, 0.96, 1.05])})
+    # a large site set: more sites than a 16-bit (and an 8-bit) index can address
+    for _k in range({'quick': 1, 'thorough': 3, 'search': 1}[tier]):
+        n = 33
+        idx = sorted({5, 127, 128, 255, 256, 1234, 32767, 32768, 33000, n**3 - 1, 0} | {rng.randrange(n**3) for _ in range(4)})
+        cases.append({'many': {'n': n, 'idx': idx}, 'm': [[2 * n, 0, 0], [0, 2 * n, 0], [0, 0, 2 * n]], 'orient': 'asis', 'rseed': 0, 'sites8': [], 'labels': [],
+                      'mode': 'float', 'radius': 0.4, 'frac': 0.5, 'pos': []})
     return cases
+
+
+def _impl_many(case):
+    """n^3 sites on a regular grid (spacing 2 A) of a cubic cell; atom a sits 0.1 A (inner) from site idx[a], one atom sits between sites"""
+    from gemdat.transitions import _calculate_atom_states
+    from pymatgen.core import Structure
+    n, idx = case['many']['n'], case['many']['idx']
+    g = np.array([[i, j, k] for i in range(n) for j in range(n) for k in range(n)], dtype=float) / n
+    traj_pos = np.array([[g[i] + np.array([0.1 / (2 * n), 0, 0]) for i in idx] + [[0.5 / n, 0.5 / n, 0.5 / n]]] * 3)
+    traj = synth.make_traj(case['m'], ['Li'] * traj_pos.shape[1], traj_pos)
+    sites = Structure(lattice=traj.get_lattice(), species=['Li'] * len(g), coords=g, labels=['A'] * len(g))
+    st = _calculate_atom_states(sites=sites, trajectory=traj, site_radius={'': case['radius']})
+    inn = _calculate_atom_states(sites=sites, trajectory=traj, site_radius={'': case['radius']}, site_inner_fraction=case['frac'])
+    return {'many_states': np.asarray(st).tolist(), 'many_inner': np.asarray(inn).tolist()}
 
 
 def _lattice(case):
@@ -76,6 +96,8 @@ def _lattice(case):
 
 
 def impl(case):
+    if case.get('many'):
+        return _impl_many(case)
     from gemdat.trajectory import Trajectory
     from gemdat.transitions import _compute_site_radius
     from gemdat.metrics import TrajectoryMetrics
@@ -177,6 +199,17 @@ def _analyse0(case, out):
 
 
 def oracle(case, out):
+    if case.get('many'):
+        if 'many_states' not in out:
+            return [('c02/harness-error', f"{out.get('error')}: {out.get('msg')} {out.get('tb', '')[-500:]}")]
+        want = case['many']['idx'] + [-1]
+        for name in ('many_states', 'many_inner'):
+            for t, row in enumerate(out[name]):
+                if row != want:
+                    k = next(i for i, (a, b) in enumerate(zip(row, want)) if a != b)
+                    return [('sites/state-not-admissible', f'{case["many"]["n"]}^3 = {case["many"]["n"] ** 3} sites: the atom 0.1 A from site {want[k]} is assigned '
+                             f'{"inner " if name == "many_inner" else ""}state {row[k]} (frame {t})')]
+        return []
     if out.get('too_close'):
         return []
     if 'states' not in out:
@@ -263,6 +296,8 @@ def nontrivial(case, out):
 
 
 def classify(case, out):
+    if case.get('many'):
+        return [f'large-site-set({case["many"]["n"] ** 3} sites)']
     tags = [f'orient={case["orient"]}', f'mode={case["mode"]}', f'frac={case["frac"]}']
     if out.get('too_close'):
         tags.append('sites-too-close-error')
@@ -280,4 +315,4 @@ def classify(case, out):
 
 def sample(case, out):
     return {'m': case['m'], 'orient': case['orient'], 'sites8': case['sites8'], 'labels': case['labels'], 'radius': case['radius'],
-            'pos0': case['pos'][0], 'states0': out.get('states', [None])[0]}
+            'pos0': case['pos'][0] if case['pos'] else case.get('many'), 'states0': out.get('states', [None])[0]}
